@@ -33,6 +33,51 @@ type Cfg struct {
 	Readers  int
 	Flushers int
 	Seed     int64
+	// Storm: the sessions do nothing but announce election ids, all of them at the same moment in every round
+	// (distinct ids, increasing from round to round), so that their compare-and-set sections contend
+	Storm bool
+}
+
+// cyclic barrier whose parties may leave
+type barrier struct {
+	mu      sync.Mutex
+	cond    *sync.Cond
+	parties int
+	waiting int
+	phase   int
+}
+
+func newBarrier(n int) *barrier {
+	b := &barrier{parties: n}
+	b.cond = sync.NewCond(&b.mu)
+	return b
+}
+
+func (b *barrier) wait() {
+	b.mu.Lock()
+	defer b.mu.Unlock()
+	ph := b.phase
+	b.waiting++
+	if b.waiting >= b.parties {
+		b.waiting = 0
+		b.phase++
+		b.cond.Broadcast()
+		return
+	}
+	for ph == b.phase {
+		b.cond.Wait()
+	}
+}
+
+func (b *barrier) leave() {
+	b.mu.Lock()
+	b.parties--
+	if b.parties > 0 && b.waiting >= b.parties {
+		b.waiting = 0
+		b.phase++
+		b.cond.Broadcast()
+	}
+	b.mu.Unlock()
 }
 
 type rec struct {
@@ -131,10 +176,21 @@ func Run(sink ribdrv.Sink, c Cfg) (hangs int, err error) {
 	acked := make([][]abs.Op, c.Sessions) // per session: operations acknowledged RIB_PROGRAMMED, in order
 	announced := make([][][2]int, c.Sessions)
 	start := make(chan struct{})
+	bar := newBarrier(c.Sessions)
+	turn := make([]chan struct{}, c.Sessions+1)
+	for i := range turn {
+		turn[i] = make(chan struct{})
+	}
+	close(turn[0])
+	if c.Storm {
+		abs.IdentityIDs = true
+		defer func() { abs.IdentityIDs = false }()
+	}
 	for i := 0; i < c.Sessions; i++ {
 		wg.Add(1)
 		go func(i int) {
 			defer wg.Done()
+			defer bar.leave()
 			rng := rand.New(rand.NewSource(c.Seed*1000 + int64(i)))
 			l := fmt.Sprintf("s%d", i+1)
 			ms := srvdrv.NewModStream()
@@ -143,6 +199,9 @@ func Run(sink ribdrv.Sink, c Cfg) (hangs int, err error) {
 			mu.Unlock()
 			done := make(chan error, 1)
 			<-start
+			if c.Storm {
+				<-turn[i] // storm sessions negotiate one after the other (an un-negotiated session constrains the others)
+			}
 			go func() { done <- srv.Modify(ms) }()
 			send := func(m *spb.ModifyRequest, what string) bool {
 				select {
@@ -179,12 +238,29 @@ func Run(sink ribdrv.Sink, c Cfg) (hangs int, err error) {
 				return
 			}
 			want++
-			if !await(want, "params") {
+			okp := await(want, "params")
+			if c.Storm {
+				close(turn[i+1])
+			}
+			if !okp {
 				return // rejected (e.g. differs from a session that has not negotiated yet): allowed
 			}
 			var last [2]int
 			var opid uint64 = uint64(i+1) * 100000
 			for r := 0; r < c.Rounds; r++ {
+				if c.Storm {
+					bar.wait()
+					last = [2]int{0, 10*r + (i+r)%c.Sessions + 1}
+					if !send(&spb.ModifyRequest{ElectionId: &spb.Uint128{High: 0, Low: uint64(last[1])}}, "election") {
+						return
+					}
+					announced[i] = append(announced[i], last)
+					want++
+					if !await(want, "election") {
+						return
+					}
+					continue
+				}
 				if r == 0 || rng.Intn(3) == 0 {
 					last = [2]int{rng.Intn(3), 1 + rng.Intn(len(abs.IDVals)-1)}
 					if !send(&spb.ModifyRequest{ElectionId: abs.ConcID(last)}, "election") {
